@@ -21,12 +21,12 @@ def run():
                     pid += 1
                     progs.append((pid, cg.wrap_toplevel(cg.capture_case(pat, depth, pos))))
                     kinds[pid] = "capture:%s:%s:depth%d" % (pat, pos, depth)
-        nrand = 2500 if chk.thorough else 260
+        nrand = 9000 if chk.thorough else 260
         for _ in range(nrand):
             pid += 1
             progs.append((pid, cg.wrap_toplevel(cg.Gen03(rng).program())))
             kinds[pid] = "random"
-        for rep in range(12 if chk.thorough else 3):
+        for rep in range(40 if chk.thorough else 3):
             for name, node in cg.lazy_cases(rng):
                 pid += 1
                 progs.append((pid, cg.wrap_toplevel(node)))
